@@ -11,6 +11,8 @@
                    (f = "fail" models an observer call that raises, e.g. at a size bound)
      Parse(o)      parse the buffer into slot o
      BufMutate     the caller overwrites / consumes the buffer afterwards
+     NewFrom(o)    construct slot o from an ARGUMENT the caller keeps (a Python list handed to a vector-valued field)
+     ArgMutate     the caller edits that argument afterwards
      ResMutate     the caller edits the value an observer RETURNED (appends to the composed bytearray, sorts the list, ...)
 
    GHOST state: exp[o] is the value the object in slot o must have if objects are
@@ -25,18 +27,20 @@
                      before the fix)
      LeakyObserver   an observer edits the object and restores it afterwards, but not
                      when it fails half-way (client hello compose before the fix)
+     AliasArg        the constructor stores the caller's list itself instead of copying it
      AliasResult     an observer hands out the object's own mutable part instead of a copy
                      (TlsApplicationDataMessage.compose returned self.data)
    TLC rejects each of them; the harness replays the histories TLC enumerates on the
    real classes and compares which objects changed with what this model allows. *)
 EXTENDS Integers, Sequences, FiniteSets, TLC
 
-CONSTANTS Slots, MaxSteps, SharedDefault, AliasInput, LeakyObserver, AliasResult
+CONSTANTS Slots, MaxSteps, SharedDefault, AliasInput, LeakyObserver, AliasResult, AliasArg
 
 DefaultCell == <<"default", "-", 0>>
 BufCell == <<"buf", "-", 0>>
+ArgCell == <<"arg", "-", 0>>
 NoCell == <<"none", "-", 0>>
-Cells == {DefaultCell, BufCell} \cup {<<"own", s, k>> : s \in Slots, k \in 0..MaxSteps} \cup {<<"res", "-", k>> : k \in 0..MaxSteps}
+Cells == {DefaultCell, BufCell, ArgCell} \cup {<<"own", s, k>> : s \in Slots, k \in 0..MaxSteps} \cup {<<"res", "-", k>> : k \in 0..MaxSteps}
 
 VARIABLES mem,      \* cell -> value
           ref,      \* slot -> cell (or "none")
@@ -85,13 +89,23 @@ BufMutate == /\ Tick(<<"bufmutate", "-", "-">>)
              /\ mem' = [mem EXCEPT ![BufCell] = @ + 1]
              /\ UNCHANGED <<ref, exp, last, resref>>
 
+NewFrom(s) == /\ Tick(<<"newfrom", s, "-">>)
+              /\ IF AliasArg
+                 THEN ref' = [ref EXCEPT ![s] = ArgCell] /\ mem' = mem
+                 ELSE ref' = [ref EXCEPT ![s] = Fresh(s)] /\ mem' = [mem EXCEPT ![Fresh(s)] = mem[ArgCell]]
+              /\ exp' = [exp EXCEPT ![s] = mem[ArgCell]] /\ last' = [last EXCEPT ![s] = -1] /\ UNCHANGED resref
+
+ArgMutate == /\ Tick(<<"argmutate", "-", "-">>)
+             /\ mem' = [mem EXCEPT ![ArgCell] = @ + 1]
+             /\ UNCHANGED <<ref, exp, last, resref>>
+
 \* the caller edits the returned value in place: it is the caller's, no object may notice
 ResMutate == /\ resref # NoCell /\ Tick(<<"resmutate", "-", "-">>)
              /\ mem' = [mem EXCEPT ![resref] = @ + 1]
              /\ UNCHANGED <<ref, exp, last, resref>>
 
 Next == \/ \E s \in Slots : New(s) \/ Mutate(s) \/ Parse(s) \/ Observe(s, "ok") \/ Observe(s, "fail")
-        \/ BufMutate \/ ResMutate
+        \/ BufMutate \/ ResMutate \/ ArgMutate \/ (\E s \in Slots : NewFrom(s))
 Spec == Init /\ [][Next]_vars
 
 Independent   == \A s \in Live : Value(s) = exp[s]
